@@ -8,6 +8,30 @@ import (
 
 var hostileTokens = [][]byte{nil, []byte("-"), []byte("<"), []byte("<>"), []byte("<1"), []byte(">"), {0xff, 0xfe}, {0xc3}, []byte("\x00"), []byte("a\nb"), []byte("2019-08-15T15:50:46"), []byte("2019-08-15T"), []byte("[ ]"), []byte("@"), []byte("a@b.c"), []byte("\\"), []byte("="), []byte("appServ"), []byte("access.log"), []byte("errors"), []byte("main.log")}
 
+// genHostileTime: strings that are shaped like a date-time (so that they get past the shape test) with something
+// unusual inside: very long or odd fractions, odd zones, out-of-range components.
+func genHostileTime(t *rapid.T) []byte {
+	date := rapid.SampledFrom([]string{"2019-08-15", "0000-00-00", "9999-99-99", "2020-02-30", "2020-13-01", "2020-00-10", "    -  -  ", "20x9-08-15"}).Draw(t, "date")
+	clock := rapid.SampledFrom([]string{"15:50:46", "24:00:00", "23:59:60", "99:99:99", "  :  :  ", "1a:50:46"}).Draw(t, "clock")
+	frac := ""
+	switch rapid.IntRange(0, 5).Draw(t, "fracKind") {
+	case 0:
+	case 1:
+		frac = "." + strings.Repeat("7", rapid.IntRange(1, 9).Draw(t, "n"))
+	case 2:
+		frac = "." + strings.Repeat(rapid.SampledFrom([]string{"0", "9", "1"}).Draw(t, "d"), rapid.IntRange(10, 40).Draw(t, "n")) // more digits than nanoseconds
+	case 3:
+		frac = "."
+	case 4:
+		frac = "." + rapid.SampledFrom([]string{"12a", "-1", " 1", "1.2", "١٢"}).Draw(t, "odd")
+	default:
+		frac = "." + strings.Repeat("3", rapid.IntRange(200, 400).Draw(t, "n"))
+	}
+	zone := rapid.SampledFrom([]string{"Z", "z", "", "+03:00", "-0930", "+25:99", "+0", "+1", "+03:0", "+03:000", "+030", "Z0", "ZZ", "+", "-", "+aa:bb", "+03:00Z", "+99:99", "-00:00", "+14:00", "−03:00"}).Draw(t, "zone")
+	sep := rapid.SampledFrom([]string{"T", "T", "T", "t", " ", "_"}).Draw(t, "sep")
+	return []byte(date + sep + clock + frac + zone)
+}
+
 // GenHostile generates one hostile input (without trailing newline), see C07.
 func GenHostile(t *rapid.T, maxMsg int) []Seg {
 	maxRec := maxMsg + 256
@@ -23,6 +47,9 @@ func GenHostile(t *rapid.T, maxMsg int) []Seg {
 			if rapid.IntRange(0, 3).Draw(t, "mut") == 0 {
 				*tok = rapid.SampledFrom(hostileTokens).Draw(t, "tok")
 			}
+		}
+		if rapid.IntRange(0, 2).Draw(t, "timeMut") == 0 {
+			l.Time = genHostileTime(t)
 		}
 		switch rapid.IntRange(0, 5).Draw(t, "priKind") {
 		case 0:
